@@ -641,6 +641,45 @@ static void linForm(const Value* v, long coef, LinForm& lf, int depth)
 }
 
 static bool typedMem = true;
+// --bytewise-wire ("huge buffer" mode): integer loads/stores that go through a packed struct (the library's wire headers are
+// #pragma pack(1) overlays on byte buffers) or through a pointer obtained by casting an i8* are emitted as single-byte
+// accesses, and copies of packed structs as byte copies. CBMC then sees only byte reads / writes on the byte buffers; a wide
+// access into a 64 KiB array otherwise makes it build an array-sized byte_update expression per access.
+static bool bytewiseWire = false;
+static bool isPackedStructTy(Type* t)
+{
+    auto* st = dyn_cast<StructType>(t);
+    return st && !st->isOpaque() && st->isPacked();
+}
+static bool wirePointer(const Value* p)
+{
+    if (!bytewiseWire)
+        return false;
+    for (int depth = 0; depth < 8 && p; ++depth)
+    {
+        if (auto* pt = dyn_cast<PointerType>(p->getType()))
+            if (isPackedStructTy(pt->getNonOpaquePointerElementType()))
+                return true;
+        if (auto* g = dyn_cast<GEPOperator>(p))
+        {
+            if (isPackedStructTy(g->getSourceElementType()))
+                return true;
+            p = g->getPointerOperand();
+            continue;
+        }
+        if (auto* bc = dyn_cast<BitCastOperator>(p))
+        {
+            const Value* src = bc->getOperand(0);
+            if (auto* spt = dyn_cast<PointerType>(src->getType()))
+                if (spt->getNonOpaquePointerElementType()->isIntegerTy(8))
+                    return true;
+            p = src;
+            continue;
+        }
+        break;
+    }
+    return false;
+}
 // the struct/array type T such that p (bitcasts stripped) is a T* and len == sizeof(T); nullptr otherwise
 static Type* typedPointee(const Value* p, const Value* len)
 {
@@ -658,6 +697,8 @@ static Type* typedPointee(const Value* p, const Value* len)
         if (st->isOpaque())
             return nullptr;
     if (DL->getTypeAllocSize(et) != cl->getZExtValue())
+        return nullptr;
+    if (bytewiseWire && isPackedStructTy(et))
         return nullptr;
     return et;
 }
@@ -771,6 +812,8 @@ static Type* prefixPointee(const Value* p, const Value* len)
         if (st->isOpaque())
             return nullptr;
     if (DL->getTypeAllocSize(et) < cl->getZExtValue())
+        return nullptr;
+    if (bytewiseWire && isPackedStructTy(et))
         return nullptr;
     return et;
 }
@@ -933,14 +976,33 @@ static void emitFunction(const Function& F, std::ostream& out)
             else if (auto* li = dyn_cast<LoadInst>(&I))
             {
                 useTy(t);
-                os << "    " << lhs << " = *" << op(0) << ";\n";
+                unsigned bw = t->isIntegerTy() ? t->getIntegerBitWidth() : 0;
+                if ((bw == 16 || bw == 32 || bw == 64) && wirePointer(li->getPointerOperand()))
+                {
+                    os << "    { const unsigned char* vp_b_ = (const unsigned char*)" << op(0) << "; " << lhs << " = (" << tyName(t) << ")(";
+                    for (unsigned k = 0; k < bw / 8; ++k)
+                        os << (k ? " | " : "") << "((unsigned long)vp_b_[" << k << "] << " << 8 * k << ")";
+                    os << "); }\n";
+                }
+                else
+                    os << "    " << lhs << " = *" << op(0) << ";\n";
             }
             else if (auto* si = dyn_cast<StoreInst>(&I))
             {
                 useTy(si->getValueOperand()->getType());
                 if (instrumentThisFunction && !si->isAtomic())
                     os << "    " << notStatic(op(1)) << "\n";
-                os << "    *" << op(1) << " = " << op(0) << ";\n";
+                Type* vt = si->getValueOperand()->getType();
+                unsigned bw = vt->isIntegerTy() ? vt->getIntegerBitWidth() : 0;
+                if ((bw == 16 || bw == 32 || bw == 64) && wirePointer(si->getPointerOperand()))
+                {
+                    os << "    { unsigned char* vp_b_ = (unsigned char*)" << op(1) << "; unsigned long vp_v_ = (unsigned long)" << op(0) << ";";
+                    for (unsigned k = 0; k < bw / 8; ++k)
+                        os << " vp_b_[" << k << "] = (unsigned char)(vp_v_ >> " << 8 * k << ");";
+                    os << " }\n";
+                }
+                else
+                    os << "    *" << op(1) << " = " << op(0) << ";\n";
             }
             else if (auto* gep = dyn_cast<GetElementPtrInst>(&I))
             {
@@ -1692,6 +1754,8 @@ int main(int argc, char** argv)
             typedNew = false;
         else if (a == "--untyped-mem")
             typedMem = false;
+        else if (a == "--bytewise-wire")
+            bytewiseWire = true;
         else if (a == "--static-writes")
             checkStaticWrites = true;
         else if (a == "--static-set" && i + 1 < argc)
